@@ -257,6 +257,7 @@ def run(ctx):
         ctx.compare("reader-cache-after-failure-model-vs-suds", meta, cached, model)
     del model_reqs[:], model_metas[:]
     included_needs_includer(ctx)
+    store_and_split_namespace(ctx)
     relative_include_shapes(ctx)
     if metas:
         ctx.sample({"input": metas[0][0], "fetched": metas[0][1]})
@@ -417,6 +418,58 @@ def relative_include_shapes(ctx):
         if sorted(counts) != sorted(net) or any(c != 1 for c in counts.values()):
             ctx.fail("documents linked by relative includes are not fetched exactly once each", meta,
                      dict(counts), {u: 1 for u in net})
+
+
+def store_and_split_namespace(ctx):
+    """(a) documents the document store holds are served from it before the transport is asked - also under
+    locations that carry a query string or a fragment (`...svc?wsdl`, `...svc?xsd=1`); (b) one namespace split over
+    an embedded schema and a file it pulls in by an own-namespace xsd:import with a schemaLocation (some toolkits
+    write that instead of xsd:include) still loads completely."""
+    XS = "http://www.w3.org/2001/XMLSchema"
+    part2 = ('<xsd:schema xmlns:xsd="%s" xmlns:t="urn:t" targetNamespace="urn:t" elementFormDefault="qualified">'
+             '<xsd:complexType name="C"><xsd:sequence><xsd:element name="v" type="xsd:int"/></xsd:sequence>'
+             '</xsd:complexType></xsd:schema>' % XS).encode()
+
+    def wsdl(loc, how):
+        link = '<xsd:%s %sschemaLocation="%s"/>' % (how, 'namespace="urn:t" ' if how == "import" else "", loc)
+        return ('<?xml version="1.0"?><wsdl:definitions targetNamespace="urn:w" xmlns:wsdl="%s" xmlns:w="urn:w" '
+                'xmlns:t="urn:t" xmlns:soap="%s"><wsdl:types><xsd:schema xmlns:xsd="%s" targetNamespace="urn:t" '
+                'elementFormDefault="qualified">%s<xsd:element name="f" type="t:C"/></xsd:schema></wsdl:types>'
+                '<wsdl:message name="fIn"><wsdl:part name="p" element="t:f"/></wsdl:message><wsdl:portType name="PT">'
+                '<wsdl:operation name="f"><wsdl:input message="w:fIn"/></wsdl:operation></wsdl:portType>'
+                '<wsdl:binding name="B" type="w:PT"><soap:binding style="document" '
+                'transport="http://schemas.xmlsoap.org/soap/http"/><wsdl:operation name="f"><soap:operation '
+                'soapAction="f"/><wsdl:input><soap:body use="literal"/></wsdl:input></wsdl:operation></wsdl:binding>'
+                '<wsdl:service name="S"><wsdl:port name="P" binding="w:B"><soap:address location="http://x.invalid/"/>'
+                '</wsdl:port></wsdl:service></wsdl:definitions>' % (IF.WSDLNS, IF.SOAPNS, XS, link)).encode()
+    for how in ("include", "import"):
+        for root_url, part_url in (("http://svc.invalid/a/svc?wsdl", "http://svc.invalid/a/svc?xsd=1"),
+                                   ("http://svc.invalid/a/svc?wsdl=1", "http://svc.invalid/a/part2.xsd#frag"),
+                                   ("http://svc.invalid/a/root.wsdl", "http://svc.invalid/a/part2.xsd")):
+            for where in ("store", "transport"):
+                docs = {root_url: wsdl(part_url, how), part_url: part2,
+                        # decoys under the query-less locations: never the right documents
+                        "http://svc.invalid/a/svc": b"<not-a-wsdl/>"}
+                st = {u.split("://", 1)[1]: d for u, d in docs.items()} if where == "store" else {}
+                net = {} if where == "store" else docs
+                meta = {"stream": "store-and-split-namespace", "link": how, "root": root_url, "part": part_url,
+                        "held_by": where}
+                ctx.case(common.canon(meta), True)
+                client, err, store, tr = load(root_url, st, net)
+                if err is not None:
+                    ctx.fail("a namespace split over two documents does not load", meta, err, "a client")
+                    continue
+                try:
+                    obj = client.factory.create("{urn:t}C")
+                    members = [k for k, _v in obj]
+                except Exception as e:
+                    members = repr(e)
+                if members != ["v"]:
+                    ctx.fail("the part of the namespace kept in the second document is missing", meta, members, ["v"])
+                if where == "store" and tr.opened:
+                    ctx.fail("documents held by the document store were asked of the transport", meta, tr.opened, [])
+                if where == "transport" and sorted(tr.opened) != sorted([root_url, part_url]):
+                    ctx.fail("the documents were not fetched exactly once each", meta, tr.opened, [root_url, part_url])
 
 
 def included_needs_includer(ctx):
